@@ -230,6 +230,24 @@ func (*pathEngine) Corpus() []Case {
 		ops = append(ops, opReg("POST", "  ", 2), opReg("POST", "", 3), opMatch("POST", "/"))
 		return ops
 	}, "corpus-F3")
+	// long fixed paths: every length from 110 to 140 bytes (and a few far beyond) is a route of its own, registered under
+	// three methods of different length, next to the route for its first 100 bytes; each is reached by its own path only
+	both(func(st, enc bool) []string {
+		ops := []string{opNew(st, enc, nil)}
+		long := func(n int) string { return "/" + strings.Repeat("abcdefghij", 40)[:n-1] }
+		lens := []int{100}
+		for n := 110; n <= 140; n++ {
+			lens = append(lens, n)
+		}
+		lens = append(lens, 255, 256, 257, 300)
+		for i, n := range lens {
+			ops = append(ops, opReg("GET", long(n), 3*i+1), opReg("OPTIONS", long(n), 3*i+2), opReg("PUT", long(n), 3*i+3))
+		}
+		for _, n := range lens {
+			ops = append(ops, opMatch("GET", long(n)), opMatch("OPTIONS", long(n)), opServe("PUT", "d", long(n)), opMatch("GET", long(n)+"/"))
+		}
+		return ops
+	}, "corpus-long")
 	// F16: white space in front of a trailing slash, in and outside groups
 	both(func(st, enc bool) []string {
 		return []string{opNew(st, enc, nil),
